@@ -47,7 +47,8 @@ def stats_coverage(st, rule: str, extra: dict | None = None) -> dict:
         "deviation_bound_completed": st.bound,
         "merged_revisits": st.merged,
         "max_choice_depth": st.max_depth,
-        "caps_hit": st.caps,
+        "caps_hit": st.caps[:40],
+        "capped_scenarios_cover_all_executions_with_non_default_choices_up_to": (min(st.capped_depths) if getattr(st, "capped_depths", None) else None),
         "unmergeable_types": sorted(st.unmergeable),
         "determinism_recheck": st.recheck,
         "violating_executions": getattr(st, "violating_executions", 0),
